@@ -330,7 +330,8 @@ class sptensor:
             shape = parse_shape(shape)
             tt_sizecheck(shape, False)
         else:
-            shape = parse_shape(np.max(subs, axis=0) + 1)
+            # (in python integers: max + 1 would wrap around in a narrow subscript type)
+            shape = parse_shape([int(largest) + 1 for largest in np.max(subs, axis=0)])
 
         # Check for wrong input
         if subs.size > 0 and subs.shape[1] > len(shape):
